@@ -198,7 +198,7 @@ fn shrink_candidates_lim(v: &Value, limit: usize) -> Vec<Value> {
                     out.push(Value::Record(a, items.clone()));
                 }
             }
-            if attrs[i].name.as_str() != "a" && is_identifier(attrs[i].name.as_str()) {
+            if attrs[i].name.as_str() != "a" {
                 let mut a = attrs.clone();
                 a[i] = Attr { name: "a".into(), value: a[i].value.clone() };
                 out.push(Value::Record(a, items.clone()));
